@@ -334,6 +334,23 @@ func checkC20(c *Ctx, r *Report) {
 		r.Check("C20-O5", fmt.Sprintf("fn=db.parseIntegerSequenceID error-exit #%d is-4xx", n), c.Pos(ret.Pos()), ok, "base.HTTPErrorf(4xx)", "a malformed token is reported with a non-client error (the raw strconv error maps to HTTP 500)")
 	}
 
+	// every component parse is checked: a component that fails to parse makes the whole parse fail
+	fe := newFailEdge(c)
+	pn := 0
+	for _, call := range c.Calls(parse, false, nameIs("db.ParseIntSequenceComponent")) {
+		cv, ok := call.(*ssa.Call)
+		if !ok {
+			continue
+		}
+		pn++
+		s := fe.classifyStrict(parse, cv)
+		r.Check("C20-O5", fmt.Sprintf("fn=db.parseIntegerSequenceID component-parse #%d failure-rejects-token", pn), c.Pos(call.Pos()), s.Verdict == "propagating",
+			"a component that does not parse makes the token invalid", "the result of parsing one component is ignored or overwritten: a token with a malformed component is accepted and mis-parsed ("+s.Detail+")")
+	}
+	if pn < 6 {
+		r.Fail("C20-O5", "fn=db.parseIntegerSequenceID component-parses", c.Pos(parse.Pos()), fmt.Sprintf("expected 6 component parses (1+2+3), found %d", pn))
+	}
+
 	// ---- O6
 	for _, use := range []struct{ fn, what string }{
 		{"(*db.DatabaseCollectionWithUser).SimpleMultiChangesFeed", "changes feed merge"},
